@@ -739,6 +739,25 @@ fn queue_ops_scenarios(out: &mut NdjsonWriter, seed: u64, n: u64) {
             }
         }
     }
+    // The second listed finding of the check, in a history of its own: a rewind target above every checkpoint. Blocks
+    // 1..4 are scanned, the wallet is truncated precisely to block 4 (truncate_to_chain_state), two blocks WITHOUT
+    // commitments are scanned (they add no checkpoint), then rewind_to_chain_state(5): no pool has a checkpoint at or above
+    // the target, the wallet falls back to the pruning floor and drops every block, but queues only the heights above
+    // the TARGET again.
+    {
+        let mut r = Run::new(out, seed.wrapping_mul(7_368_787).wrapping_add(n + 1), false, json!("queue-ops rewind above every checkpoint"));
+        r.no_env_rewinds = true;
+        for b in 0..4u32 { r.recv(if b % 2 == 0 { Pool::Sapling } else { Pool::Orchard }, 20_000 + b as u64, false); }
+        r.empties(6);
+        r.tip_top();
+        let base = r.chain.base;
+        r.scan(base + 1, 4);
+        r.trunc_with(base + 4, false, true);
+        r.tip_top();
+        r.scan(base + 5, 2);
+        r.rewind(base + 5);
+        r.suggest();
+    }
 }
 
 fn main() {
